@@ -159,12 +159,31 @@ func (p *fmter) diffFile(ff []Fragment) {
 	}
 }
 
+// quoteString renders a string literal that the lexer reads back as lit. The
+// lexer knows three escapes only: a backslash before a backslash, the quote or
+// a newline; every other character stands for itself (Go's %q would write
+// \t, \u00e9 ... which the lexer rejects).
+func quoteString(lit string) string {
+	var sb strings.Builder
+	sb.WriteByte('"')
+	for _, r := range lit {
+		switch r {
+		case '\\', '"', '\n':
+			sb.WriteByte('\\')
+		}
+		sb.WriteRune(r)
+	}
+	sb.WriteByte('"')
+	return sb.String()
+}
+
 func tokenSource(tok Token) string {
 	switch tok.Type {
 	case STRING:
-		return fmt.Sprintf("%q", tok.Lit)
+		return quoteString(tok.Lit)
 	case REGEX:
-		return fmt.Sprintf("/%s/", tok.Lit)
+		// the lexer reads '//' as a '/' inside a regex
+		return "/" + strings.ReplaceAll(tok.Lit, "/", "//") + "/"
 	case DESCRIPTION:
 		return fmt.Sprintf("| %s", tok.Lit)
 	case COMMENT:
